@@ -48,6 +48,13 @@ inside the label at the place of use as one space", end to end: the paragraph ha
 after `l1`; the second line may be indented and starts with a plain character; the key is that of the whole label
 (`normUse` collapses the line break and the indentation to one space).
 
+Part 4 (`Lemmas/RefTextFmt.lean`, `Lemmas/RefTextFmtSpec.lean`): **either output format**.  `C15_text_markup_fmt`,
+`C15_text_markup_defs_fmt`, `C15_mix_line_fmt` are the theorems of part 2 without the hypothesis `cfg.fmt = .xhtml`:
+the opening tag is `<a` + `attrHtml fmt "href" url` + (`attrHtml fmt "title" title` when there is a non-empty title)
++ `>` (`C15_specUsesF_spec`; `attrHtml`: `Props/C15Forms.lean`, in the html format an attribute whose escaped value
+equals its name is written as the bare name, otherwise ` name="value"` in both formats: `C15_aOpenF_plain`).
+`C15_specUsesF_xhtml`: for xhtml this is the output of part 2.
+
 Restrictions of part 2, found by testing or inherited: full form `[text][label]` / `[text] [label]` with a non-empty
 label (the collapsed and shortcut forms look up the link TEXT, which by then holds placeholders for code spans and
 escapes: `Props/C15Forms.lean` has them for plain text); the line starts with a character that starts no block
@@ -59,6 +66,7 @@ import MdVerif.Props.C15Forms
 import MdVerif.Lemmas.RefTextDoc
 import MdVerif.Lemmas.RefTextSpec
 import MdVerif.Lemmas.RefTextLines
+import MdVerif.Lemmas.RefTextFmtSpec
 
 namespace MdVerif.RefText
 open Py Inline RefDef InlineRef
@@ -253,6 +261,43 @@ theorem C15_text_markup (cfg : Pipeline.Cfg) (hfmt : cfg.fmt = .xhtml)
       .ok ("<p>".toList ++ (specInlines c0 ++ specUses us) ++ "</p>".toList) :=
   convert_mixLine cfg hfmt hbl htab hesc before after hb ha c0 us st hne h0 hus hlook hstart hchars hnoref
 
+/-- what ties a use to a definition of the document: the definitions in document order are `L1 ++ d :: L2`, none
+    after `d` has its key (so `d` wins over earlier definitions of the same label), the label of `d` is the words
+    `w0 :: ws` joined by single spaces, the label at the place of use is any case / white-space variant of it, and the
+    use carries the destination and the stored title of `d` -/
+structure UseOfDef (defs : List DefSpec) (u : MUse) : Prop where
+  split : ∃ (L1 L2 : List DefSpec) (d : DefSpec) (w0 : Str) (ws : List Str) (w0' : Str) (vs : List (Str × Str)),
+    defs = L1 ++ d :: L2 ∧ (∀ d' ∈ L2, normDef d'.label ≠ normDef d.label) ∧ d.label = labelOf (w0 :: ws) ∧
+    (∀ w ∈ w0 :: ws, isWord w = true) ∧ sameLower w0 w0' = true ∧ variantOK ws vs = true ∧
+    u.label = useVariant w0' vs ∧ u.url = d.url ∧ u.title = storedTitle d.title
+
+/-- such a use resolves to its definition: last definition of the key wins, loose label matching -/
+theorem C15_useOfDef_lookup {defs : List DefSpec} {u : MUse} (h : UseOfDef defs u) :
+    Block.lookupRef (defs.map DefSpec.entry) (normUse u.label) = some (u.url, u.title) := by
+  obtain ⟨L1, L2, d, w0, ws, w0', vs, hd, hlast, hdl, hw, h0, hv, hl, hu, ht⟩ := h.split
+  rw [hd, hl, hu, ht, C15_label_match w0 ws w0' vs hw h0 hv, ← hdl, List.map_append, List.map_cons, entry_eq d]
+  apply C15_lookup_last_wins
+  simp only [refKeys, List.map_map, List.mem_map, Function.comp, not_exists, not_and]
+  intro d' hd' e
+  exact hlast d' hd' e
+
+open Escape CodeLaw DocParse DocParse2 DocSpec in
+/-- **m uses of n definitions, spelled out**: every use is tied to a definition of the document (`UseOfDef`: loose
+    label matching, the last definition of a key wins, wherever the definitions stand); then the paragraph renders
+    with every link carrying the destination and title of ITS definition. -/
+theorem C15_text_markup_defs (cfg : Pipeline.Cfg) (hfmt : cfg.fmt = .xhtml)
+    (hbl : cfg.blockLevel = TreeProc.defaultBlockLevel) (htab : 0 < cfg.tab) (hesc : cfg.esc = ESC)
+    (before after : List DefSpec) (hb : ∀ d ∈ before, d.ok cfg.tab = true)
+    (ha : ∀ d ∈ after, d.ok cfg.tab = true) (c0 : List DocSpec.Inline) (us : List MUse) (st : PSt)
+    (hne : us ≠ []) (h0 : mixOK c0 = true) (hus : ∀ u ∈ us, u.ok = true)
+    (hdef : ∀ u ∈ us, UseOfDef (before ++ after) u)
+    (hstart : startPlain (printLine c0 us st) = true) (hchars : (printLine c0 us st).all lineCh = true)
+    (hnoref : Block.refMatchAt (printLine c0 us st) 0 = none) :
+    Pipeline.convert cfg (docOf before (printLine c0 us st) after) =
+      .ok ("<p>".toList ++ (specInlines c0 ++ specUses us) ++ "</p>".toList) :=
+  C15_text_markup cfg hfmt hbl htab hesc before after hb ha c0 us st hne h0 hus
+    (fun u hu => C15_useOfDef_lookup (hdef u hu)) hstart hchars hnoref
+
 /-- the pieces of the rendering, spelled out -/
 theorem C15_specUses_spec (u : MUse) (r : List MUse) :
     specUses [] = [] ∧
@@ -385,6 +430,71 @@ example : Pipeline.convert {} (docOf [] (refSrc "see ".toList "x".toList [] ("Fo
     (by decide) (by decide) (Or.inl rfl) (by decide) (by decide) (by decide) (by decide) (by decide) (by decide)
     ⟨3, 'B', "AR".toList, by decide, by decide, by decide⟩
 
+/-! ## Part 4: either output format -/
+
+open Escape CodeLaw DocParse DocParse2 DocSpec in
+/-- **`C15_text_markup` for either output format.**  Same document, same conditions, no condition on `cfg.fmt`; the
+    opening tags are written in the spelling of the format (`specUsesF cfg.fmt`, `C15_specUsesF_spec`). -/
+theorem C15_text_markup_fmt (cfg : Pipeline.Cfg)
+    (hbl : cfg.blockLevel = TreeProc.defaultBlockLevel) (htab : 0 < cfg.tab) (hesc : cfg.esc = ESC)
+    (before after : List DefSpec) (hb : ∀ d ∈ before, d.ok cfg.tab = true)
+    (ha : ∀ d ∈ after, d.ok cfg.tab = true) (c0 : List DocSpec.Inline) (us : List MUse) (st : PSt)
+    (hne : us ≠ []) (h0 : mixOK c0 = true) (hus : ∀ u ∈ us, u.ok = true)
+    (hlook : ∀ u ∈ us, Block.lookupRef ((before ++ after).map DefSpec.entry) (normUse u.label) = some (u.url, u.title))
+    (hstart : startPlain (printLine c0 us st) = true) (hchars : (printLine c0 us st).all lineCh = true)
+    (hnoref : Block.refMatchAt (printLine c0 us st) 0 = none) :
+    Pipeline.convert cfg (docOf before (printLine c0 us st) after) =
+      .ok ("<p>".toList ++ (specInlines c0 ++ specUsesF cfg.fmt us) ++ "</p>".toList) :=
+  convert_mixLine_fmt cfg hbl htab hesc before after hb ha c0 us st hne h0 hus hlook hstart hchars hnoref
+
+open Escape CodeLaw DocParse DocParse2 DocSpec in
+/-- **`C15_text_markup_defs` for either output format**: m uses, each tied to a definition of the document
+    (`UseOfDef`). -/
+theorem C15_text_markup_defs_fmt (cfg : Pipeline.Cfg)
+    (hbl : cfg.blockLevel = TreeProc.defaultBlockLevel) (htab : 0 < cfg.tab) (hesc : cfg.esc = ESC)
+    (before after : List DefSpec) (hb : ∀ d ∈ before, d.ok cfg.tab = true)
+    (ha : ∀ d ∈ after, d.ok cfg.tab = true) (c0 : List DocSpec.Inline) (us : List MUse) (st : PSt)
+    (hne : us ≠ []) (h0 : mixOK c0 = true) (hus : ∀ u ∈ us, u.ok = true)
+    (hdef : ∀ u ∈ us, UseOfDef (before ++ after) u)
+    (hstart : startPlain (printLine c0 us st) = true) (hchars : (printLine c0 us st).all lineCh = true)
+    (hnoref : Block.refMatchAt (printLine c0 us st) 0 = none) :
+    Pipeline.convert cfg (docOf before (printLine c0 us st) after) =
+      .ok ("<p>".toList ++ (specInlines c0 ++ specUsesF cfg.fmt us) ++ "</p>".toList) :=
+  C15_text_markup_fmt cfg hbl htab hesc before after hb ha c0 us st hne h0 hus
+    (fun u hu => C15_useOfDef_lookup (hdef u hu)) hstart hchars hnoref
+
+/-- the pieces of the rendering in format `fmt`, spelled out -/
+theorem C15_specUsesF_spec (fmt : Ser.Fmt) (u : MUse) (r : List MUse) :
+    specUsesF fmt [] = [] ∧
+    specUsesF fmt (u :: r) = ("<a".toList ++ attrHtml fmt "href".toList u.url ++
+        (if Node.truthy u.title then attrHtml fmt "title".toList (u.title.getD []) else []) ++ ['>']) ++
+      (DocSpec.specInlines u.text ++ ("</a>".toList ++ DocSpec.specInlines u.after)) ++ specUsesF fmt r :=
+  ⟨rfl, rfl⟩
+
+/-- when no attribute is boolean — always so in xhtml — the opening tag is `<a href="…" title="…">` as in part 2 -/
+theorem C15_aOpenF_plain (fmt : Ser.Fmt) (url : Str) (title : Option Str)
+    (h : fmt = .xhtml ∨ ("href".toList ≠ Ser.escAttrHtml url ∧
+      ∀ s, title = some s → "title".toList ≠ Ser.escAttrHtml s)) :
+    "<a".toList ++ attrHtml fmt "href".toList url ++
+        (if Node.truthy title then attrHtml fmt "title".toList (title.getD []) else []) ++ ['>'] =
+      "<a href=\"".toList ++ Ser.escAttrHtml url ++ ['"'] ++ titleAttr title ++ ['>'] :=
+  aOpenF_eq fmt url title h
+
+/-- in xhtml the output of part 4 is the output of part 2 -/
+theorem C15_specUsesF_xhtml (us : List MUse) : specUsesF .xhtml us = specUses us := specUsesF_xhtml us
+
+/-- **`C15_mix_line` for either output format** (chunk level, any escapable set) -/
+theorem C15_mix_line_fmt (cfg : Pipeline.Cfg)
+    (hbl : cfg.blockLevel = TreeProc.defaultBlockLevel) (htab : 0 < cfg.tab) (hE : DocParse.EscOK cfg.esc)
+    (hrb : ']' ∈ cfg.esc) (before after : List DefSpec) (hb : ∀ d ∈ before, d.ok cfg.tab = true)
+    (ha : ∀ d ∈ after, d.ok cfg.tab = true) (C0 : Chunk) (us : List RUse) (hne : us ≠ [])
+    (h0 : ChunkOK cfg.esc C0) (hus : ∀ u ∈ us, UseSpec cfg.esc (before ++ after) u)
+    (hstart : startPlain (lineRaw cfg.esc C0 us) = true) (hchars : (lineRaw cfg.esc C0 us).all lineCh = true)
+    (hnoref : Block.refMatchAt (lineRaw cfg.esc C0 us) 0 = none) :
+    Pipeline.convert cfg (docOf before (lineRaw cfg.esc C0 us) after) =
+      .ok ("<p>".toList ++ (C0.out ++ usOutF cfg.fmt us) ++ "</p>".toList) :=
+  convert_line_fmt cfg hbl htab hE hrb before after hb ha C0 us hne h0 hus hstart hchars hnoref
+
 /-! ### instances: the hypotheses are satisfiable; evaluated by the kernel on the model as well -/
 
 section examples
@@ -430,6 +540,30 @@ example : Pipeline.convert {}
       (printLine sampleC0 [sampleU1, sampleU2] sampleSt) [⟨1, S "X", S "/v", none, false⟩]) =
     .ok ("<p>see <em>it</em> and <code>a[b]</code>! <a href=\"/u?a=b\" title=\"T\"><strong>the docs</strong> of " ++
       "<code>x*y</code>_</a> then *<a href=\"/v\">plain 2</a>.<code>`</code></p>").toList := by decide +kernel
+
+/-- the html format, with a boolean attribute: the definition `[b]: href "title"` gives `<a href title>` -/
+def sampleU3 : MUse := ⟨[.em [.text (S "go")]], [], S "B", S "href", some (S "title"), []⟩
+
+example : sampleU3.ok = true := by decide
+
+example : Pipeline.convert { fmt := .html }
+    (docOf [⟨0, S "Foo Bar", S "/u?a=b", some (.dq, S "T"), false⟩, ⟨0, S "b", S "href", some (.dq, S "title"), false⟩]
+      (printLine sampleC0 [sampleU1, sampleU3] sampleSt) []) =
+    .ok ("<p>".toList ++ (specInlines sampleC0 ++ specUsesF .html [sampleU1, sampleU3]) ++ "</p>".toList) :=
+  C15_text_markup_fmt { fmt := .html } rfl (by decide) rfl _ _ (by decide) (by decide) sampleC0 [sampleU1, sampleU3]
+    sampleSt (by simp) (by decide) (by decide) (by decide +kernel) (by decide +kernel) (by decide +kernel)
+    (by decide +kernel)
+
+example : specInlines sampleC0 ++ specUsesF .html [sampleU1, sampleU3] =
+    ("see <em>it</em> and <code>a[b]</code>! <a href=\"/u?a=b\" title=\"T\"><strong>the docs</strong> of " ++
+     "<code>x*y</code>_</a> then *<a href title><em>go</em></a>").toList := by decide +kernel
+
+/-- the same instance evaluated by the kernel on the model -/
+example : Pipeline.convert { fmt := .html }
+    (docOf [⟨0, S "Foo Bar", S "/u?a=b", some (.dq, S "T"), false⟩, ⟨0, S "b", S "href", some (.dq, S "title"), false⟩]
+      (printLine sampleC0 [sampleU1, sampleU3] sampleSt) []) =
+    .ok ("<p>see <em>it</em> and <code>a[b]</code>! <a href=\"/u?a=b\" title=\"T\"><strong>the docs</strong> of " ++
+     "<code>x*y</code>_</a> then *<a href title><em>go</em></a></p>").toList := by decide +kernel
 
 /-- outside the domain, recorded: the collapsed form looks up the link text as it is when pattern 2 runs — with a code
     span in it the key holds a placeholder and finds nothing; the text stays literal, its markup rendered
